@@ -560,7 +560,14 @@ func c10EffectClass(want, got map[string]string) string {
 }
 
 func c10Frags() (map[string]*Fragment, []string) {
-	return mergeFrags(mergeFrags(CoreFragments(), MultiKeyFragments()), ChoiceFragments()), []string{"fa", "fb", "fd", "fp", "fg", "fh", "mk5", "ca1", "cpc"}
+	fr := mergeFrags(mergeFrags(CoreFragments(), MultiKeyFragments()), ChoiceFragments())
+	u1, u5 := K{"id", "1"}, K{"id", "5"}
+	// nested list with two entries; fu2 differs from fu1 only in the first entry, fu3 only in the last
+	fr["fu1"] = &Fragment{Name: "fu1", Leaves: []Leaf{leaf("10", "if", e1, "unit", u1, "vlan"), leaf("50", "if", e1, "unit", u5, "vlan")}}
+	fr["fu2"] = &Fragment{Name: "fu2", Leaves: []Leaf{leaf("11", "if", e1, "unit", u1, "vlan"), leaf("50", "if", e1, "unit", u5, "vlan")}}
+	fr["fu3"] = &Fragment{Name: "fu3", Leaves: []Leaf{leaf("10", "if", e1, "unit", u1, "vlan")}}
+	// mk4 -> mk5 changes only the non-key leaf of an existing two-key entry
+	return fr, []string{"fa", "fb", "fd", "fp", "fg", "fh", "mk4", "mk5", "ca1", "cpc", "fu1", "fu2", "fu3"}
 }
 
 func init() {
